@@ -331,6 +331,8 @@ class VM:
             return self.externs[name]
         if name in BUILTINS:
             return BUILTINS[name]
+        if self.decide is not None:
+            return None               # oracle mode: values are opaque (globals / fields of other units)
         raise VMRuntimeError(f"name {name!r} is not defined")
 
     def write_name(self, frame, name, value, stmt=None):
